@@ -24,6 +24,13 @@ works and carries the same tensors; declared bounds hold for every component tha
 them; the method named by `last_mutation_attr` is the called one or its documented fallback and the
 architecture changed accordingly (unchanged only when the bound would be reached or crossed).
 
+Explicit arguments (suite `explicit-args`, `explicit_check`): "changes the architecture in the advertised way" for "all
+argument choices" includes that an explicit `hidden_layer` / size / kernel is honoured.  Judged on the component's own
+`init_dict` before / after: the only layer whose width / kernel changed is the one requested (clamped to the last), by the
+explicit size; every method x every layer index (and one beyond) on components with several layers of distinct widths
+(bare blocks, encoders and heads of every network kind, nested blocks of dict / tuple observations, Conv3d) and on the
+default-bound subjects.
+
 Probes (`probe_policy`) check the call sites of the defects analysed in the design / build round
 one by one and report them through `chk.finding`; the suites do not report those again.
 
@@ -657,6 +664,80 @@ def effect_check(kind: str, called: str, applied: str | None, before: dict, afte
     return p
 
 
+def init_sizes(owner, kind: str) -> dict:
+    """the sizes of a component as ITS OWN constructor description (`init_dict`) states them"""
+    d = owner.init_dict
+    if kind == "latent":
+        return {"latent": int(d["latent_dim"])}
+    if kind == "mlp":
+        return {"nodes": [int(x) for x in d["hidden_size"]]}
+    if kind == "cnn":
+        return {"nodes": [int(x) for x in d["channel_size"]],
+                "kernels": [int(k[-1]) if isinstance(k, (tuple, list)) else int(k) for k in d["kernel_size"]]}
+    if kind in ("lstm", "simba"):
+        return {"nodes": [int(d["hidden_size"])]}
+    if kind == "resnet":
+        return {"nodes": [int(d["channel_size"])]}
+    raise InfraError(kind)
+
+
+def explicit_check(kind: str, called: str, applied: str | None, ib: dict, ia: dict, kwargs: dict) -> list[str]:
+    """an explicit argument is honoured (part of "changes the architecture in the advertised way", quantified over
+    "all argument choices"): when the called method itself was applied (no fallback), the layer named by
+    `hidden_layer` (clamped to the last one) is the only one whose width / kernel changed in the constructor
+    description, a changed width changed by exactly the explicit size, a changed kernel is the explicit kernel or
+    smaller (the spatial bound).  Judged on the implementation's own init_dict before / after."""
+    if applied != called or not kwargs or not ib or not ia:
+        return []
+    p = []
+    n = kwargs.get("numb_new_nodes", kwargs.get("numb_new_channels"))
+    sign = 1 if called.startswith("add") else -1
+    args = ", ".join(f"{k}={int(v) if not isinstance(v, (tuple, list)) else tuple(v)}" for k, v in kwargs.items())
+    if kind == "latent":
+        b, a = ib["latent"], ia["latent"]
+        if n is not None and a != b and a - b != sign * int(n):
+            p.append(f"{called}({args}): init_dict latent_dim {b} -> {a}, not the explicit size")
+        return p
+    if called == "change_kernel":
+        bk, ak = ib.get("kernels"), ia.get("kernels")
+        if bk is None or ak is None or len(bk) != len(ak):
+            return p
+        changed = [j for j, (x, y) in enumerate(zip(bk, ak)) if x != y]
+        if "hidden_layer" in kwargs:
+            j = min(int(kwargs["hidden_layer"]), len(bk) - 1)
+            wrong = [c for c in changed if c != j]
+            if wrong:
+                p.append(f"change_kernel({args}): init_dict kernel_size {bk} -> {ak}: the kernel of layer {wrong[0]} "
+                         f"changed, layer {j} was requested (an explicit argument is not honoured)")
+        if "kernel_size" in kwargs:
+            ks = kwargs["kernel_size"]
+            k = int(ks[-1] if isinstance(ks, (tuple, list)) else ks)
+            for c in changed:
+                if not 1 <= ak[c] <= max(k, 1):
+                    p.append(f"change_kernel({args}): init_dict kernel_size {bk} -> {ak}: layer {c} got a kernel "
+                             f"larger than the explicit size {k}")
+        return p
+    if called not in ("add_node", "remove_node", "add_channel", "remove_channel"):
+        return p
+    bn, an = ib["nodes"], ia["nodes"]
+    if len(bn) != len(an):
+        return p
+    what = {"mlp": "hidden_size", "cnn": "channel_size"}.get(kind, "size")
+    changed = [j for j, (x, y) in enumerate(zip(bn, an)) if x != y]
+    if "hidden_layer" in kwargs:
+        j = min(int(kwargs["hidden_layer"]), len(bn) - 1)
+        wrong = [c for c in changed if c != j]
+        if wrong:
+            p.append(f"{called}({args}): init_dict {what} {bn} -> {an}: layer {wrong[0]} changed, layer {j} was "
+                     f"requested (an explicit argument is not honoured)")
+    if n is not None:
+        for c in changed:
+            if an[c] - bn[c] != sign * int(n):
+                p.append(f"{called}({args}): init_dict {what} {bn} -> {an}: layer {c} changed by {an[c] - bn[c]:+d}, "
+                         f"not by the explicit size")
+    return p
+
+
 def model_kwargs(kind: str, called_leaf: str, applied_leaf: str | None, kwargs: dict, log: list) -> str:
     """the `k=v` tokens of the model's `mut` line: explicit arguments and recorded draws"""
     t = {}
@@ -706,6 +787,7 @@ def do_step(spec: dict, m, step: dict, start_ok: dict, oracle: bool = True) -> S
     try:
         owner, leaf, kind = resolve(m, name)
         r.before = arch_state(owner, kind)
+        init_before = init_sizes(owner, kind) if (oracle and kwargs) else None
     except Exception as e:
         r.raised = fault_text(e)
         r.problems.append(f"advertised method {name} cannot be resolved / its module read: {r.raised}")
@@ -740,6 +822,8 @@ def do_step(spec: dict, m, step: dict, start_ok: dict, oracle: bool = True) -> S
         return r
     try:
         r.problems += effect_check(kind, leaf, applied_leaf, r.before, r.after, kwargs, r.log, owner2)
+        if init_before is not None:
+            r.problems += explicit_check(kind, leaf, applied_leaf, init_before, init_sizes(owner2, kind), kwargs)
         if r.applied is not None and "." in name and r.applied.rsplit(".", 1)[0] != name.rsplit(".", 1)[0]:
             r.problems.append(f"{name} reported as {r.applied}")
         r.problems += bounds_check(spec, m, start_ok)
@@ -965,11 +1049,76 @@ def actions_for(spec: dict, m, small: bool) -> list[dict]:
     return acts
 
 
+def explicit_actions(spec: dict, m, small: bool) -> list[dict]:
+    """every advertised method that takes arguments x every explicit argument choice that names a place or a size:
+    `hidden_layer` = every layer of the component and one beyond (clamped to the last), with and without an explicit
+    size / kernel; the size alone"""
+    acts = []
+    for name in sorted(m.mutation_methods):
+        owner, leaf, kind = resolve(m, name)
+        n = 1 if small else NODE_CHOICES.get(kind, [8])[0]
+        if leaf in ("add_node", "remove_node", "add_channel", "remove_channel") and kind in ("mlp", "cnn"):
+            key = "numb_new_nodes" if leaf.endswith("node") else "numb_new_channels"
+            L = len(arch_state(owner, kind)["nodes"])
+            for hl in list(range(L)) + [L + 3]:
+                acts.append({"method": name, "kwargs": {"hidden_layer": hl, key: n}})
+                acts.append({"method": name, "kwargs": {"hidden_layer": hl}, "draw": "lo"})
+        elif leaf == "change_kernel" and kind == "cnn":
+            st = arch_state(owner, kind)
+            L = len(st["kernels"])
+            for hl in list(range(L)) + [L + 3]:
+                cur = st["kernels"][min(hl, L - 1)]
+                for k in sorted({1, max(1, cur - 1), cur + 1}):
+                    acts.append({"method": name, "kwargs": {"hidden_layer": hl, "kernel_size": k}})
+                acts.append({"method": name, "kwargs": {"hidden_layer": hl}, "draw": "hi"})
+        elif kind == "latent" or leaf in ("add_node", "remove_node"):
+            acts.append({"method": name, "kwargs": {"numb_new_nodes": n}})
+        elif leaf in ("add_channel", "remove_channel"):
+            acts.append({"method": name, "kwargs": {"numb_new_channels": n}})
+    return acts
+
+
+def multi_layer_subjects() -> list[dict]:
+    """components with SEVERAL layers of DISTINCT widths / kernels wherever a method takes `hidden_layer` (layer
+    mutations of encoders are disabled, so the explorations above only ever see the configured depth there): bare
+    blocks, CNN / MLP encoders and heads of every network kind, nested blocks of dict / tuple observations, Conv3d"""
+    S = []
+
+    def add(id_, small, **kw):
+        S.append(dict(id=id_, small=small, **kw))
+    cnn3 = small_cnn_cfg(ch=(2, 3, 4), k=(3, 2, 1), s=(1, 1, 1), hi_l=3, hi_c=6)
+    cnn2 = small_cnn_cfg(ch=(2, 3), k=(3, 2), s=(1, 1), hi_l=2, hi_c=5)
+    mlp3 = small_mlp_cfg([2, 3, 4], hi_l=3, hi_n=6)
+    mlp2 = small_mlp_cfg([3, 2], hi_l=2, hi_n=5)
+    head = small_mlp_cfg([2, 3], hi_l=2, hi_n=5)
+    lat = dict(latent_dim=4, min_latent_dim=2, max_latent_dim=8)
+    add("mlp-3layer", True, kind="mlp", cfg=dict(num_inputs=3, num_outputs=2, **mlp3))
+    add("cnn-3layer", True, kind="cnn", cfg=dict(input_shape=[2, 16, 16], num_outputs=3, **cnn3))
+    add("cnn3d-3layer", True, kind="cnn3d", depth=3, cfg=dict(input_shape=[2, 16, 16], num_outputs=3, **cnn3))
+    add("multi-dict-2layer", True, kind="multi", obs="dict",
+        cfg=dict(num_outputs=3, **multi_cfg(True, cnn_config=dict(cnn2, layer_norm=False), mlp_config=dict(mlp2))))
+    add("q-img-2layer", True, kind="net", cls="QNetwork", obs="img", act="disc",
+        cfg=dict(encoder_config=dict(cnn2), head_config=dict(head), **lat))
+    add("value-vec-2layer", True, kind="net", cls="ValueNetwork", obs="vec",
+        cfg=dict(encoder_config=dict(mlp2), head_config=dict(head), **lat))
+    add("contq-tuple-2layer", True, kind="net", cls="ContinuousQNetwork", obs="tuple", act="box",
+        cfg=dict(encoder_config=multi_cfg(True, cnn_config=dict(cnn2, layer_norm=False), mlp_config=dict(mlp2),
+                                          vector_space_mlp=True), head_config=dict(head), **lat))
+    add("detactor-img-2layer", True, kind="net", cls="DeterministicActor", obs="img", act="box",
+        cfg=dict(encoder_config=dict(cnn2), head_config=dict(head), **lat))
+    add("stoch-vec-2layer", True, kind="net", cls="StochasticActor", obs="vec", act="box",
+        cfg=dict(encoder_config=dict(mlp2), head_config=dict(head), **lat))
+    add("rainbow-vec-2layer", True, kind="net", cls="RainbowQNetwork", obs="vec", act="disc",
+        cfg=dict(encoder_config=dict(mlp2), head_config=dict(head), **lat))
+    return S
+
+
 def explore(chk: Check, suite: str, spec: dict, policy: dict, depth_full: int, depth_graph: int, small: bool,
-            known: set, max_nodes: int = 4000) -> tuple[int, int]:
+            known: set, max_nodes: int = 4000, actions_fn=None) -> tuple[int, int]:
     """all method/argument sequences up to `depth_full` (every sequence, executed on clones of real
     objects), then the closure of the reachable architecture graph (states identified by their
     constructor description) up to `depth_graph`.  One driver batch for the whole tree."""
+    actions_fn = actions_fn or actions_for
     try:
         root = build(spec)
         start_ok = start_bounds(spec, root)
@@ -994,10 +1143,10 @@ def explore(chk: Check, suite: str, spec: dict, policy: dict, depth_full: int, d
         for pid in frontier:
             parent = nodes[pid]
             try:
-                acts = actions_for(spec, parent["m"].clone(), small)   # names are taken from the offspring
+                acts = actions_fn(spec, parent["m"].clone(), small)   # names are taken from the offspring
             except Exception:
                 try:
-                    acts = actions_for(spec, parent["m"], small)
+                    acts = actions_fn(spec, parent["m"], small)
                 except Exception as e:
                     failing.append((parent["path"], [f"listing the advertised methods raised {fault_text(e)}"]))
                     continue
@@ -1748,6 +1897,11 @@ def run(chk: Check) -> None:
                  "than their input, strides 1..7, non-square inputs) through the real calc_max_kernel_sizes and _later_layers_fit; "
                  "kernel-limit = real EvolvableCNNs on 4x4..16x16 images (strides 1..3, kernels up to the full map), chains of "
                  "change_kernel (explicit kernel 1..9 on layer 0..5, or drawn) / add_layer / remove_layer, each step on a clone")
+    chk.rule += ("  Explicit arguments: suite explicit-args = every advertised method that takes arguments x every layer index of its "
+                 "component and one beyond x explicit / drawn size (change_kernel: kernel below / at / above the current one), one step "
+                 "on a clone, on 10 subjects with 2-3 layers of distinct widths (MLP, CNN 2d/3d blocks, nested blocks of dict / tuple "
+                 "observations, CNN / MLP encoders and heads of Q, Rainbow, continuous Q, value, deterministic and stochastic actor) "
+                 "and on the default-bound subjects (quick: 8 drawn); oracle on the component's own init_dict before / after")
     chk.assumptions = [
         "numpy draws inside mutation methods go through np.random.randint / np.random.choice (served by a recorded stand-in)",
         "finiteness of outputs and acceptance of weights are checked on the real torch modules only (not modelled)",
@@ -1786,6 +1940,15 @@ def run(chk: Check) -> None:
         n, d = safely(chk, "explore-drawn", spec, policy, explore, chk, "explore-drawn", spec, policy, df, dg, False,
                       known, cap)
         chk.suite("explore-drawn-" + spec["kind"], n, d)
+    # explicit arguments: every method x every layer index (and one beyond) x explicit / drawn size, on the default-bound
+    # subjects and on components with several layers of distinct widths (all module kinds, nested ones included)
+    dflt = [s for s in subs if not s["small"]]
+    if quick:       # scalar-size components (LSTM, SimBa, ResNet) get their explicit size in explore-drawn already
+        dflt = chk.rng.sample([s for s in dflt if s["kind"] not in ("lstm", "simba", "resnet")], 8)
+    for spec in multi_layer_subjects() + dflt:
+        n, d = safely(chk, "explicit-args", spec, policy, explore, chk, "explicit-args", spec, policy, 1, 1,
+                      spec["small"], known, 120 if quick else 400, explicit_actions)
+        chk.suite("explicit-args-" + spec["kind"], n, d)
     # numpy-typed values in the constructor description
     nn_, nd_ = 0, 0
     for spec in subs:
@@ -1912,6 +2075,30 @@ def selftest(chk: Check, policy: dict, known: set) -> None:
     finally:
         en_mod.calc_max_kernel_sizes = orig
     caught.append(("calc_max_kernel_sizes with half the map", ok))
+    # 7. an explicit hidden_layer is not honoured: remove_node / remove_channel count the layer from the END
+    for mod_, cls_, meth, key, fspec in (
+            (mlp_mod, "EvolvableMLP", "remove_node", "numb_new_nodes",
+             {"id": "selftest-mlp3", "kind": "mlp", "cfg": dict(num_inputs=3, num_outputs=2, **small_mlp_cfg([3, 4, 5], hi_l=3, hi_n=6))}),
+            (cnn_mod, "EvolvableCNN", "remove_channel", "numb_new_channels",
+             {"id": "selftest-cnn3", "kind": "cnn",
+              "cfg": dict(input_shape=[2, 16, 16], num_outputs=3, **small_cnn_cfg(ch=(3, 4, 5), k=(3, 2, 1), s=(1, 1, 1), hi_c=6))})):
+        cls = getattr(mod_, cls_)
+        orig = getattr(cls, meth)
+        sizes = "hidden_size" if cls_ == "EvolvableMLP" else "channel_size"
+
+        def mirrored(self, hidden_layer=None, _orig=orig, _sizes=sizes, **kw):
+            if hidden_layer is not None:
+                n_ = len(getattr(self, _sizes))
+                hidden_layer = n_ - 1 - min(hidden_layer, n_ - 1)
+            return _orig.__wrapped__(self, hidden_layer, **kw)
+        mirrored.__name__ = mirrored.__qualname__ = meth          # the library registers a method under its __name__
+        setattr(cls, meth, mutation(MutationType.NODE, **orig._recreate_kwargs)(mirrored))
+        try:
+            r_ = run_chain(chk, fspec, [{"method": meth, "kwargs": {"hidden_layer": 0, key: 1}}], policy)
+            ok = any("was requested" in p_ for p_ in r_["problems"])
+        finally:
+            setattr(cls, meth, orig)
+        caught.append((f"{cls_}.{meth} applies an explicit hidden_layer to another layer", ok))
     missed = [n for n, ok in caught if not ok]
     if missed:
         raise InfraError(f"C03 self-test: seeded faults not noticed: {missed}")
